@@ -42,7 +42,7 @@ theorem C11_counterexample_xamzdate_repeated :
     stsSpec .header rXAmzDateTwice = sp!"GET\n\n\n\nx-amz-date:A,B\n/bkt/k" ∧
     ¬ C11.WF .header rXAmzDateTwice := by decide +kernel
 
-/-- repaired by 89d0d71 (was finding `expires-out-of-range`, corpus `w-presign-expires-year-10000`): the
+/-- repaired by 55f3d9c (was finding `expires-out-of-range`, corpus `w-presign-expires-year-10000`): the
     second after 9999-12-31T23:59:59Z used to be refused by `PresignedUrlV2::parse`; now the credentials
     are read as the specification reads them and the expiry is held as the last instant the clock can show -/
 def qYear10000 : Pairs :=
@@ -72,7 +72,7 @@ theorem C11_repaired_expires_out_of_range_verdict (hmac : Bytes → Bytes → By
       SigV2Spec.Accepts hmac b64 lookup nowNs ⟨sp!"GET", [], sp!"/bkt/k", qYear10000, none⟩ ak :=
   C11.C11_verdict_iff_spec_partial hmac b64 lookup nowNs _ ak hnow hclock (by decide +kernel)
 
-/-- repaired by 9d7ab72 (was finding `signature-double-encoded`, corpus `w-presign-signature-double-encoded`): the
+/-- repaired by a503c6a (was finding `signature-double-encoded`, corpus `w-presign-signature-double-encoded`): the
     value `ab%3D` (what `Signature=ab%253D` decodes to) is compared as it stands, as the specification
     reads it — it used to be percent-decoded a second time and compared as `ab=` -/
 def qDoubleEncoded : Pairs :=
